@@ -241,7 +241,7 @@ var c29HostLens = []int{0, 1, 31, 32, 63, 64, 127, 128, 129, 135, 136, 137, 255,
 // c29HostModes is the number of case classes of c29HostCase; the generator emits one case of
 // every class first (so that every host function and every branch of its model is reached in
 // every run) and then n cases of random classes.
-const c29HostModes = 24
+const c29HostModes = 25
 
 func c29HostCase(r *vu.RNG, mode int, emit func(string)) {
 	h := vu.Hex
@@ -384,9 +384,10 @@ func c29HostCase(r *vu.RNG, mode int, emit func(string)) {
 			sig := idSig(true)
 			copy(sig[:32], pk)
 			c(2, zero, msg, sig)
-		default: // version 2, signature without the marker bit (pre-audit or cleared)
-			old := r.Chance(1, 2)
-			c(2, pk, msg, c29SrSign(kp, msg, r.Bytes(64), old, false))
+		case 23: // version 2, current scheme with the marker bit cleared
+			c(2, pk, msg, c29SrSign(kp, msg, r.Bytes(64), false, false))
+		default: // version 2, schnorrkel 0.1.1 signature (no marker bit)
+			c(2, pk, msg, c29SrSign(kp, msg, r.Bytes(64), true, false))
 		}
 	}
 }
